@@ -209,7 +209,10 @@ def judge(case, m):
     if case.get("single_level"):
         df["h"] = pd.Series([df["h"].iloc[0]] * len(df), dtype="str")
         meta["h"]["levels"] = [df["h"].iloc[0]]
-    if case.get("nan_rows") and len(df) > 4:
+    if case.get("nan_rows") == "all":
+        df["x"] = np.nan  # every row is dropped when x is used: containers with zero rows
+        df["y"] = np.nan
+    elif case.get("nan_rows") and len(df) > 4:
         df.loc[df.index[rng.choice(len(df), size=2, replace=False)], "x"] = np.nan
     ns = D.namespace(meta)
     formulae.config["EVAL_UNSEEN_CATEGORIES"] = "error"
@@ -219,6 +222,9 @@ def judge(case, m):
         m.note("design-raised:" + type(e).__name__)
         return
     # chain of evaluations; unseen groups / levels in some of them
+    if len(df) == 0 or case.get("nan_rows") == "all":
+        m.cls("zero-row-design")
+        return
     kept = []
     cat_cols = [c for c in ("g", "g2", "s", "h", "o") if c in df.columns]
     for step in range(int(rng.integers(2, 6))):
@@ -250,6 +256,20 @@ def judge(case, m):
     m.cls("group-terms:%d" % len(case.get("group", [])), "response:%s" % case.get("resp"))
 
 
+def judge_zero_rows(case, m):
+    import formulae
+
+    df, meta = D.case_frame(case["frame"])
+    df["x"] = np.nan
+    CTX["hostile"] = False
+    m.current_case = case
+    try:
+        formulae.design_matrices(case["zero_rows_text"], df, extra_namespace=D.namespace(meta))  # invariants fire in the hook
+        m.cls("zero-row-design")
+    except Exception as e:
+        m.note("design-raised:" + type(e).__name__)
+
+
 RESPONSES = ["y", "y", "yb", "cu", "co", "yb['yes']", "s[%s]", "prop(succ, tr)", "np.log(w)", None]
 
 
@@ -263,11 +283,19 @@ def run_shard(i, n, tier, seed, m):
         if case["resp"] == "s[%s]":
             case["resp"] = "s['%s']" % "a"
         case["single_level"] = k % 9 == 4
-        case["nan_rows"] = k % 7 == 2
+        case["nan_rows"] = "all" if k % 23 == 9 else (k % 7 == 2)
         text = D.formula_text(case)
         nontrivial = len(case["terms"]) >= 2 or bool(case["group"])
         m.case({**case, "text": text}, canon=[text, case["frame"]["seed"]], nontrivial=nontrivial)
         judge(case, m)
+    if i == 0:
+        # containers without any row (every row dropped) and without any group
+        for j, text in enumerate(["y ~ x + (1 | g)", "y ~ x + (x | g) + (1 | g2)", "y ~ w + (0 + cnt | C(k))", "y ~ x", "y ~ 0 + x + (1 | g:g2)",
+                                  "yb['yes'] ~ x + (x | g)"]):
+            case = {"frame": {"seed": 1700 + j, "hostile": False, "min_rows": 5, "max_rows": 12}, "resp": None, "intercept": True,
+                    "terms": [], "group": [], "zero_rows_text": text, "nan_rows": "all"}
+            m.case(case, canon=["zero-rows", text])
+            core.guarded(judge_zero_rows)(case, m)
     cross(i, n, tier, seed, m)
 
 
@@ -279,4 +307,7 @@ def cross(i, n, tier, seed, m):
 
 def replay(rec, m):
     register_hooks(m)
-    judge(rec["case"], m)
+    if rec["case"].get("zero_rows_text"):
+        judge_zero_rows(rec["case"], m)
+    else:
+        judge(rec["case"], m)
